@@ -54,8 +54,13 @@ pub struct Inst { pub _p: () }
 pub struct BatchOpened { pub instances: Vec<Inst> }
 pub struct BatchProofStub { pub opened_values: BatchOpened }
 pub struct NpEntry { pub public_values: Vec<Fv> }
-pub struct ProofStub { pub proof: BatchProofStub, pub non_primitives: Vec<NpEntry> }
+pub struct ProofStub { pub proof: BatchProofStub, pub non_primitives: Vec<NpEntry>, pub ext_degree: usize }
 pub struct CommonStub { pub _p: () }
+/// BatchStarkProof::validate (rows, table packing, lane counts: proved in unit meta to be Ok exactly on well-formed metadata)
+pub uninterp spec fn proof_metadata_valid(p: &ProofStub) -> bool;
+pub struct MetaErr { pub _p: () }
+impl ProofStub { #[verifier::external_body] pub fn validate(&self) -> (r: Result<(), MetaErr>) ensures r is Ok <==> proof_metadata_valid(self) { unimplemented!() } }
+
 pub struct InputsBuilder { pub _p: () }
 impl InputsBuilder {
     /// BatchStarkVerifierInputsBuilder::allocate: "# Panics if air_public_counts.len() does not match the number of instances in the batch proof"
@@ -188,6 +193,19 @@ pub open spec fn seq_sum_(s: Seq<usize>) -> int decreases s.len() { if s.len() =
         al.loop('for e_ in 0..proof.non_primitives.len()', invariants=[('one_count_per_table_so_far', 'air_public_counts@.len() == NUM_PRIMITIVE_TABLES + e_')])
     fns.append(al)
 
+    # ---- verify_p3_batch_proof_circuit[metadata_guard]: the PUBLIC entry validates the proof's self-declared metadata before any AIR is rebuilt from it (the AIR constructors assert on it)
+    mg = u.extract(B, '', 'verify_p3_batch_proof_circuit', 'verify_p3_batch_proof_circuit[metadata_guard]')
+    mm_ = re.search(r'let rows: RowCounts = proof\.rows;', mg.body)
+    if not mm_:
+        raise ExtractError('lost anchor in verify_p3_batch_proof_circuit[metadata_guard]: `let rows: RowCounts = proof.rows;`')
+    mg.body = mg.body[:mm_.start()] + '\n Ok(()) }'
+    mg.rewrites.append(('R13', 'function body truncated before `let rows: RowCounts = proof.rows;` (the statements that guard the metadata), then Ok(())', 'suffix: AIR reconstruction, allocation, verify_batch_circuit'))
+    mg.set_sig('R11', 'fn verify_p3_batch_proof_circuit_metadata<const TRACE_D: usize>(proof: &ProofStub) -> Result<(), VerificationError>', sliced=True)
+    mg.erase_error_messages('VerificationError::InvalidProofShape')
+    mg.rewrite_re('R6', r'proof\s*\.validate\(\)\s*\.map_err\(\|e\| VerificationError::InvalidProofShape\([^;]*\)\)\?;',
+                  'match proof.validate() { Ok(_) => {}, Err(_) => { return Err(VerificationError::InvalidProofShape(errmsg())); } };', min_count=0, flags_dotall=True)
+    mg.ensures('malformed_metadata_is_rejected_before_any_air_is_rebuilt_from_it', 'ret is Ok ==> proof_metadata_valid(proof)')
+    fns.append(mg)
     # ---- cap split (NO precondition): verify_batch_circuit / verify_batch_circuit_from_extension_opened
     M = 'recursion/src/pcs/mmcs.rs'
     for fn in ('verify_batch_circuit', 'verify_batch_circuit_from_extension_opened'):
